@@ -37,7 +37,9 @@ struct Info
     PieceHistory* _counter_move;
 };
 
-using StackInfo = std::array<Info, MAX_DEPTH * 2>;
+// search() hands over to quiescence_search(MAX_DEPTH - 1) at ply MAX_DEPTH at the latest:
+// slots 0 (root sentinel) .. MAX_DEPTH + 1 + (MAX_DEPTH - 1) are used
+using StackInfo = std::array<Info, MAX_DEPTH * 2 + 1>;
 
 } /* namespace engine */
 
